@@ -1,17 +1,26 @@
 (* Properties/C03.v -- parsing is total.  Model: the whole of Model/ (every Python operation that
    can raise is modelled as one that can Raise).
-   PARTIAL.  Proved for all texts and settings: every successful parse has at least one staged
-   tract component and exactly one tract per section named by the components (so the result is
-   never empty unless a section list is empty); illegal default directions are rejected with
-   DefaultNSError / DefaultEWError.  NOT proved: that no Raise other than these can occur (it needs
-   the group-content lemmas of the regex engine for int() and the list-indexing invariants); that
-   half is carried by the differential execution (exception classes compared) and the soup /
-   damaged-text oracle on the real code. *)
+   PARTIAL.  Proved for all texts and settings:
+     * every successful parse has at least one staged tract component and exactly one tract per section named by
+       the components; illegal default directions are rejected with DefaultNSError / DefaultEWError;
+     * the regex-driven steps are total: SecUnpacker, LotUnpacker and unpack_twprge raise nothing but the documented
+       default-direction errors (Proofs/C03/Steps.v);
+     * TractParser -- preprocessing, lot and aliquot extraction, lot divisions, the aliquot parser -- raises nothing,
+       for every text and every valid depth setting (Proofs/C03/Tract.v, on top of C02_core).
+     * PLSSParser -- preprocessing, chunking, finders, marker walk, flags, sec_within, construct_tracts -- raises nothing but
+       the documented default-direction errors, EXCEPT possibly TypeError in exactly one situation, which the theorem names:
+       in one of the chunks the preprocessed text is cut into, a Twp/Rge match starts or ends exactly where a section match
+       starts (Proofs/C03/Desc.v; uses the completeness of the matcher for look-around-free patterns, Engine/RegexComplete.v,
+       to show that SecUnpacker finds a section in the text of every multisec_regex match).
+   NOT proved: that this situation cannot arise in preprocessed text (a fact about what the preprocessing regexes leave
+   behind); it is searched for on every run (glued-token soup, `glued_pp` in the evidence) and has never been seen.  That
+   OutOfFuel stands for no Python exception is C16's subject.  The tie to the code is the differential execution (exception
+   classes compared) and the soup / damaged-text oracle on the real code. *)
 From Coq Require Import List NArith ZArith Arith Bool.
 From Coq Require String.
 From PyTRS Require Import Engine.Regex Gen.Patterns PyRt.Str Gen.Tables Model.Trs Model.Unpack Model.TractParse
      Model.PlssPre Model.PlssParse Model.Config Model.PlssDesc Proofs.C03.Total Proofs.C11.CopyAll.
-From PyTRS Require Import Proofs.C03.Steps.
+From PyTRS Require Import Proofs.C03.Steps Proofs.C03.Tract Proofs.C03.Desc Model.TractPre Model.Aliquot.
 Import ListNotations.
 Import String.StringSyntax.
 Local Open Scope string_scope.
@@ -75,3 +84,51 @@ Theorem C03_unpack_twprge_total : forall txt x mc_ns mc_ew e,
   In x (finditer twprge_regex twprge_regex_ng txt) -> unpack_short txt x mc_ns mc_ew = Raise e -> e = DefaultNSError \/ e = DefaultEWError.
 Proof. exact unpack_short_total. Qed.
 Print Assumptions C03_unpack_twprge_total.
+(* ---- TractParser is total: for EVERY text and every valid depth setting (min >= 0, max absent or >= max(min,1), or a single
+   qq_depth >= 1) nothing is raised -- no TypeError on an unset group, no IndexError in the lot divisions, no KeyError / ValueError in
+   the aliquot parser (OutOfFuel is the model's loop bound, not a Python exception; see C16_fuel_unobservable) ---- *)
+Theorem C03_tract_parser_total : forall txt clean_qq suppress mn mx qq bh parent e,
+  depths_ok mn mx qq -> tract_parser txt clean_qq suppress mn mx qq bh parent = Raise e -> e = OutOfFuel.
+Proof. exact tract_parser_total. Qed.
+Print Assumptions C03_tract_parser_total.
+Example C03_tract_parser_premises : depths_ok 2 None None /\ depths_ok 2 (Some 3%Z) None /\ depths_ok 2 None (Some 1%Z) /\ depths_ok 0 None None.
+Proof. exact depths_ok_default. Qed.
+(* the groups read by the callbacks of the two substituting scrubbers are set in every match, so the branches of the model that stand
+   for `len(None)` / `None + str` are dead *)
+Theorem C03_scrubber_groups_set : forall t x,
+  (In x (finditer half_plus_q_regex half_plus_q_regex_ng t) -> exists v, group t x half_plus_q_regex_g_quarter_aliquot_rightmost = Some v) /\
+  (In x (finditer aliquot_intervener_remover_regex aliquot_intervener_remover_regex_ng t) ->
+     (exists v, group t x aliquot_intervener_remover_regex_g_aliquot1 = Some v) /\ (exists v, group t x aliquot_intervener_remover_regex_g_aliquot2 = Some v)).
+Proof. exact scrubber_groups_set. Qed.
+Print Assumptions C03_scrubber_groups_set.
+(* ---- which exceptions the description-level parse can raise, for EVERY text and setting ---- *)
+(* unpack_twprge on a match of ANY preprocessing pattern, with that pattern's own group table: the static facts (number groups set on
+   every path, direction groups never empty) are computed on each regenerated pattern *)
+Theorem C03_unpack_any_scrubber_total : forall rg t x dns dew mcns mcew e,
+  In rg (PLSS_OCR_SCRUBBER :: PLSS_SCRUBBER_REGEXES) -> In x (finditer (fst (fst (fst rg))) (snd (fst (fst rg))) t) ->
+  unpack_twprge (snd (fst rg)) t x dns dew (snd rg) mcns mcew = Raise e -> e = DefaultNSError \/ e = DefaultEWError.
+Proof. exact unpack_any_scrubber_total. Qed.
+Print Assumptions C03_unpack_any_scrubber_total.
+Theorem C03_preprocess_total : forall txt d ocr e, plss_preprocess txt d ocr = Raise e -> e = OutOfFuel \/ e = DefaultNSError \/ e = DefaultEWError.
+Proof. exact plss_preprocess_raises. Qed.
+Print Assumptions C03_preprocess_total.
+(* SecUnpacker on the text of a multisec_regex match always finds at least one section (no IndexError on sec_nums[0]) *)
+Theorem C03_sec_match_has_section : forall text x u,
+  In x (finditer multisec_regex multisec_regex_ng text) -> sec_unpacker (group0 text x) = Ok u -> su_list u <> [].
+Proof. exact sec_unpacker_match_nonempty. Qed.
+Print Assumptions C03_sec_match_has_section.
+(* the marker walk can fail in one way only: a SEC_END marker met before any SEC_START marker while no section is in hand *)
+Theorem C03_walk_raises : forall txt sd md ms c e, keys_ok md ms -> walk txt sd md ms c = Raise e ->
+  e = OutOfFuel \/ (e = TypeError /\ cp_ws c = None /\ (sd = true -> walk_fault md ms)).
+Proof. exact walk_raises. Qed.
+Print Assumptions C03_walk_raises.
+(* ... which, for the markers the two finders produce, means a Twp/Rge match glued to the start of a section match *)
+Theorem C03_plss_parser_raises : forall text layout d ocr cu rc seg sw ts e,
+  depths_ok (ts_mn ts) (ts_mx ts) None -> plss_parser text layout d ocr cu rc seg sw ts = Raise e ->
+  (e = OutOfFuel \/ e = DefaultNSError \/ e = DefaultEWError) \/
+  (e = TypeError /\ exists pp, plss_preprocess text d ocr = Ok pp /\
+     exists ch chunk, chunks_for (fst pp) layout d seg = Ok ch /\ In chunk (fst ch) /\
+       exists tm sm, In tm (finditer twprge_regex twprge_regex_ng chunk) /\ In sm (finditer multisec_regex multisec_regex_ng chunk) /\
+                     (mstart tm = mstart sm \/ mend tm = mstart sm)).
+Proof. exact plss_parser_raises. Qed.
+Print Assumptions C03_plss_parser_raises.
